@@ -258,13 +258,13 @@ def run_history(history, extra=None, check_all=True):
 
 
 def transition_task(args):
-    history, op_indices, expect_fp = args
+    group, history, op_indices, expect_fp = args
     out = []
     for oi in op_indices:
         recs = states.in_child(run_history, history, [oi])
         if history and expect_fp is not None and recs[len(history) - 1]["fp"] != expect_fp:
             raise report.HarnessError(f"state re-creation diverged for history {history}")
-        out.append((history, oi, recs[-1]))
+        out.append((group, history, oi, recs[-1]))
     return out
 
 
@@ -337,6 +337,7 @@ def replay(case: dict) -> dict:
 
 def main(tier: str) -> int:
     run = report.Run(PID, tier, "model_checking", RULE)
+    states.foreign_probes()  # loads pycountry's database once here instead of in every forked child
     fp0 = states.fingerprint()
     ga = states.in_child(german_accounts)
     ops = build_alphabet(ga, tier)
@@ -364,49 +365,54 @@ def main(tier: str) -> int:
         level_sizes, per_group = [], {}
         closure_ok = True
         full_groups = set(groups) if tier == "thorough" else {g for g in groups if g.startswith("m")}
+        G = {}
         for g in groups:
             if g in full_groups:
                 g_ops = [i for i, o in enumerate(ops) if o[3] in ("general", g)]
             else:  # quick: the other method objects are searched with their own operations only
                 g_ops = [i for i, o in enumerate(ops) if o[3] == g]
-            if g != groups[0]:
-                # general x general transitions from the initial state were covered by the first group
-                pass
-            seen = {fp0: ()}
-            fp_of = {(): fp0}
-            frontier = [((), fp0)]
-            depth = 0
-            while frontier:
-                level_sizes.append(len(frontier))
-                tasks = []
-                for hist, fp in frontier:
-                    todo = g_ops if (g == groups[0] or hist) else [i for i in g_ops if ops[i][3] == g]
+            G[g] = {"ops": g_ops, "seen": {fp0: ()}, "fp_of": {(): fp0}, "frontier": [((), fp0)], "depth": 0}
+        first_full = next((g for g in groups if g in full_groups), None)
+        # all groups advance level by level together (one pool round per level)
+        while any(st["frontier"] for st in G.values()):
+            tasks = []
+            level_sizes.append(sum(len(st["frontier"]) for st in G.values()))
+            for g, st in G.items():
+                for hist, fp in st["frontier"]:
+                    # general x general from the initial state is covered once, by the first full group
+                    todo = st["ops"] if (g == first_full or hist or g not in full_groups) else [
+                        i for i in st["ops"] if ops[i][3] == g]
                     for chunk in range(0, len(todo), 7):
-                        tasks.append((hist, todo[chunk:chunk + 7], fp if hist else None))
-                results = []
-                for res in pool.imap_unordered(transition_task, tasks, chunksize=1):
-                    results.extend(res)
-                results.sort(key=lambda r: (r[0], r[1]))
-                nxt = []
-                for hist, oi, rec in results:
-                    transitions += 1
-                    run.evaluations += 1
-                    report_problems(hist, oi, rec, f"closure-bfs[{g}]")
-                    if rec["fp"] != fp_of[hist]:
-                        edges += 1
-                    if rec["fp"] not in seen:
-                        seen[rec["fp"]] = hist + (oi,)
-                        fp_of[hist + (oi,)] = rec["fp"]
-                        nxt.append((hist + (oi,), rec["fp"]))
-                frontier = nxt
-                depth += 1
-                if len(seen) > (150 if tier == "quick" else 1500):
-                    run.notes.append(f"group {g}: state cap reached at depth {depth}: {len(seen)} states")
+                        tasks.append((g, hist, todo[chunk:chunk + 7], fp if hist else None))
+            results = []
+            for res in pool.imap_unordered(transition_task, tasks, chunksize=1):
+                results.extend(res)
+            results.sort(key=lambda r: (r[0], r[1], r[2]))
+            for st in G.values():
+                st["next"] = []
+            for g, hist, oi, rec in results:
+                st = G[g]
+                transitions += 1
+                run.evaluations += 1
+                report_problems(hist, oi, rec, f"closure-bfs[{g}]")
+                if rec["fp"] != st["fp_of"][hist]:
+                    edges += 1
+                if rec["fp"] not in st["seen"]:
+                    st["seen"][rec["fp"]] = hist + (oi,)
+                    st["fp_of"][hist + (oi,)] = rec["fp"]
+                    st["next"].append((hist + (oi,), rec["fp"]))
+            for g, st in G.items():
+                if st["frontier"]:
+                    st["depth"] += 1
+                st["frontier"] = st.pop("next")
+                if len(st["seen"]) > (150 if tier == "quick" else 1500):
+                    run.notes.append(f"group {g}: state cap reached at depth {st['depth']}: {len(st['seen'])} states")
                     closure_ok = False
-                    break
-            depth_max = max(depth_max, depth)
-            per_group[g] = {"states": len(seen), "operations": len(g_ops), "depth": depth}
-            for fp, h in seen.items():
+                    st["frontier"] = []
+        for g, st in G.items():
+            depth_max = max(depth_max, st["depth"])
+            per_group[g] = {"states": len(st["seen"]), "operations": len(st["ops"]), "depth": st["depth"]}
+            for fp, h in st["seen"].items():
                 seen_total.setdefault(fp, h)
         seen = seen_total
         depth = depth_max
